@@ -94,6 +94,9 @@ def generate(seed, tier):
     other["force_target_nf"] = False
     if channels == 2 and rw.random() < 0.4:
         other = dict(cfg, band=None, force_target_nf=False, first_channel_only=True)     # same plan, auto mode, same process
+    if rw.random() < 0.4:
+        # identical scheduling parameters, but restricted to a band (shared scheduler output edited in place)
+        other = dict(cfg, force_target_nf=False, band=[round(0.1 * cfg["fs"], 6), round(0.3 * cfg["fs"], 6)])
     nops = rw.randrange(5, 16) if sim else (rw.randrange(4, 10) if bigplan else rw.randrange(5, 41))
     ops = []
     ncomp = 0
